@@ -5,13 +5,20 @@
 use super::mailbox;
 use crate::internal::left_right;
 use papaya::HashMap;
+#[cfg(not(excsn_fibre_verif))]
 use parking_lot::Mutex;
 use std::fmt;
 use std::hash::Hash;
+#[cfg(not(excsn_fibre_verif))]
 use std::sync::{
   atomic::{AtomicUsize, Ordering},
   Arc, Weak,
 };
+// Verification builds route the topic channel through the traced primitives (hook H2).
+#[cfg(excsn_fibre_verif)]
+use crate::internal::sync::{AtomicUsize, Mutex, Ordering};
+#[cfg(excsn_fibre_verif)]
+use std::sync::{Arc, Weak};
 
 /// A highly-concurrent list of subscribers for a single topic.
 /// This struct is now Send + Sync because its fields are.
